@@ -78,15 +78,15 @@ Section Structure.
                     | _, _ => None
                     end
                 end) attrs)
-      | NColl attrs =>                                           (* Collection: a NEW collection receiving only the
-                                                                    child models and the priors *)
+      | NColl attrs =>                                           (* Collection: a NEW collection receiving the child
+                                                                    models, the priors and the float constants *)
           option_map NColl
             ((fix go (a : list (string * node)) : option (list (string * node)) :=
                 match a with
                 | [] => Some []
                 | (k, c) :: a' =>
                     match c with
-                    | NConst _ | NTuple _ => go a'
+                    | NTuple _ => go a'
                     | _ => match rebuild c, go a' with
                            | Some c', Some r => Some ((k, c') :: r)
                            | _, _ => None
@@ -140,13 +140,13 @@ Section Structure.
   Definition isdigit (s : string) : bool :=
     match s with EmptyString => false | _ => all_digits s end.
 
-  (* name = prior_tuple.name; if name.isdigit(): name = path_for_prior(prior)[-2] *)
+  (* name = prior_tuple.name; if name.isdigit() and the path has an enclosing attribute: name = path[-2] *)
   Definition cfg_name (p : path) : res string :=
     let name := last p "" in
     if isdigit name then
       match rev p with
       | _ :: prev :: _ => Ok prev
-      | _ => Exc EIndex
+      | _ => Ok name
       end
     else Ok name.
 
